@@ -232,7 +232,7 @@ class Ridge2FoldCV(BaseEstimator, MultiOutputMixin, RegressorMixin):
         identity_estimator = _IdentityRegressor()
 
         # we use the the maximum eigenvalue of both fold, to simplify the code
-        scaled_alphas = np.copy(self.alphas)
+        scaled_alphas = np.array(self.alphas, dtype=np.float64)
         if self.alpha_type == "relative":
             scaled_alphas *= max(np.max(s_fold1), np.max(s_fold2))
 
